@@ -13,7 +13,7 @@ DEFAULT = dict(
     nb=(1, 3), p_parallel=0.2, maxh=[50, 50, 50, None, 2, 3, 4], p_timeout=0.0, p_forward=0.12, p_sync=0.2,
     nh=(1, 6), proglen=(0, 5), ntasks=(1, 2), tasklen=(1, 6), p_wild=0.15, p_raise=0.05, p_readbus=0.04,
     p_redispatch=0.03, p_multikey=0.05, wild_dispatch=False, p_waitidle=0.1, p_parent=0.03, p_wal=0.0,
-    p_stop=0.0, p_expect=0.0, p_cancelrl=0.0, p_notimeout=0.1, p_walfault=0.0, p_payload=0.0, p_cleanup=0.15, p_samenames=0.0,
+    p_stop=0.0, p_expect=0.0, p_cancelrl=0.0, p_notimeout=0.1, p_walfault=0.0, p_payload=0.0, p_cleanup=0.15, p_samenames=0.0, par_timeouts=False,
 )
 
 PAYLOADS = [
@@ -109,8 +109,8 @@ def gen_core(rng, **over):
             sc['types'][n]['payload'] = rng.choice(PAYLOADS)
     if o['p_walfault'] > 0:
         sc['walfaults'] = [[i, rng.choice(['open', 'write', 'mkdir'])] for i in range(12) if rng.random() < o['p_walfault']]
-    if o['p_timeout'] > 0:
-        # timeouts on parallel buses are outside the modelled envelope (see DESIGN)
+    if o['p_timeout'] > 0 and not o.get('par_timeouts'):
+        # (streams that combine handler timeouts with parallel_handlers buses ask for it explicitly)
         for b in sc['buses']:
             b['parallel'] = False
     for _ in range(rng.randint(*o['nh'])):
